@@ -155,8 +155,18 @@ def problem_model(prog, rep=None) -> ProblemModel:
         return isinstance(s, ast.Pass) or (isinstance(s, ast.Expr) and isinstance(s.value, ast.Call)) or \
             (isinstance(s, ast.AugAssign) and isinstance(s.target, ast.Attribute) and dotted(s.target.value) == "self")
 
+    def harmless(s):
+        """a statement that writes nothing on self: local bookkeeping inside the invalidator (imports, locals, a counter)"""
+        if bookkeeping(s) or isinstance(s, (ast.Import, ast.ImportFrom, ast.Pass)):
+            return True
+        if isinstance(s, (ast.Assign, ast.AnnAssign, ast.AugAssign)):
+            tg = s.targets if isinstance(s, ast.Assign) else [s.target]
+            return all(isinstance(t, ast.Name) or (isinstance(t, ast.Tuple) and all(isinstance(e, ast.Name) for e in t.elts)) for t in tg)
+        return False
+
     def scan(stmts, cond):
-        """-> (unconditional resets, conditional resets, ok?)"""
+        """-> (unconditional resets, conditional resets, ok?).  A reset that happens in BOTH branches of an if is
+        unconditional; `if self.a is not None: self.a = None` is the unconditional reset of a."""
         un, co = [], []
         for s in stmts:
             r = reset_targets(s)
@@ -165,12 +175,22 @@ def problem_model(prog, rep=None) -> ProblemModel:
             if r is not None:
                 (co if cond else un).extend(r)
             elif isinstance(s, ast.If):
-                u1, c1, ok1 = scan(s.body, True)
-                u2, c2, ok2 = scan(s.orelse, True)
+                u1, c1, ok1 = scan(s.body, False)
+                u2, c2, ok2 = scan(s.orelse, False)
                 if not (ok1 and ok2):
                     return un, co, False
-                co += u1 + c1 + u2 + c2
-            elif bookkeeping(s):
+                both = {a for a, _v in u1} & {a for a, _v in u2}
+                # guard that only asks whether the attribute is set at all
+                tested = {x.attr for x in ast.walk(s.test) if isinstance(x, ast.Attribute) and dotted(x.value) == "self"}
+                only_self_test = len(tested) == 1 and not s.orelse and {a for a, _v in u1} == tested and not any(isinstance(x, ast.Call) for x in ast.walk(s.test))
+                for a, v in u1 + u2:
+                    if (a in both or only_self_test) and not cond:
+                        if a not in {x for x, _ in un}:
+                            un.append((a, v))
+                    else:
+                        co.append((a, v))
+                co += c1 + c2
+            elif harmless(s):
                 continue
             else:
                 return un, co, False
